@@ -717,11 +717,14 @@ class UnitDatabase(Singleton):
         if category_info.valid_units is not None:
             return category_info.valid_units
         else:
+            type_category = self.categories_to_quantity_types.get(category_info.quantity_type)
             if (
                 category_info.quantity_type != category
-                and category_info.quantity_type in self.categories_to_quantity_types
+                and type_category is not None
+                and type_category.quantity_type == category_info.quantity_type
             ):
-                # use the valid units of the category named after the quantity type (if there is one)
+                # use the valid units of the category named after the quantity type (if there is one
+                # and it is of that quantity type)
                 return self.GetValidUnits(category_info.quantity_type)
 
             # the valid units have not been specified for the given category (so, let's return
